@@ -3,6 +3,9 @@
    sequential validations with early exit on enforced failures, plugin
    execution and processPluginResponse. Definitions only.
 
+   The code mirrored is the one after the fix commits dece1d5, 089b7ea and
+   8993cd3 (critical extended attributes that nothing can process).
+
    External facts are inputs (record [scenario]): what notation-core-go, the
    trust store, the revocation validator, the plugin manager and the plugin
    answered for this signature. The refinement of [s_auth] from stores is
@@ -47,7 +50,7 @@ Record scenario := mk_sc {
   s_plugin_attr : attr;             (* io.cncf.notary.verificationPlugin *)
   s_minver_attr : attr;             (* io.cncf.notary.verificationPluginMinVersion *)
   s_minver_valid : bool;            (* semver.IsValid of its value *)
-  s_other_crit : list string;       (* other critical extended attributes with string keys *)
+  s_other : list (string * bool);   (* the other extended attributes with string keys: (key, critical) *)
   s_nonstring_crit : bool;          (* a critical extended attribute whose key is not a string *)
   s_auth : N;                       (* 0 authentic; 1 trust store load error; 2 no trusted certificate
                                        loaded; 3 chain has no trusted certificate; 4 other error *)
@@ -57,6 +60,12 @@ Record scenario := mk_sc {
   s_rev_ok : bool;                  (* native revocation check *)
   s_pm : pm;
   s_presp : presp }.
+
+(* getNonPluginExtendedCriticalAttributes as it is now: every extended
+   attribute with a string key other than the two plugin headers, critical or not *)
+Definition other_keys (sc : scenario) : list string := map fst (s_other sc).
+(* those of them that are critical *)
+Definition other_crit (sc : scenario) : list string := map fst (filter snd (s_other sc)).
 
 (* error classes observable on the value returned by Verify *)
 Inductive err :=
@@ -101,48 +110,90 @@ Definition is_space (c : N) : bool :=
   ((c =? 32) || (c =? 9) || (c =? 10) || (c =? 11) || (c =? 12) || (c =? 13))%N.
 Definition blank (s : string) : bool := forallb is_space (bytes s).
 
+(* isCriticalFailure: result.Action == enforce && result.Error != nil *)
 Definition is_critical_failure (a : action) (failed : bool) : bool :=
   match a with Enforce => failed | _ => false end.
 
-(* --- plugin discovery: getVerificationPlugin .. capability filter --- *)
+(* ---------- plugin discovery: getVerificationPlugin .. capability filter ---------- *)
 Inductive discovery :=
 | DErr (e : err) (gets : list string)       (* processSignature returns here *)
 | DNoPlugin                                 (* attribute absent *)
 | DPlugin (name : string) (caps : list cap). (* installed, usable: verification capabilities, in order *)
 
+(* for _, capability := range metadata.Capabilities { if revocation || trusted identity { append } } *)
 Definition verification_caps (caps : list cap) : list cap :=
   filter (fun c => match c with CapRev | CapTI => true | CapOther => false end) caps.
 
+(* getVerificationPluginMinVersion returns an error other than "does not exist" *)
+Definition minver_error (sc : scenario) : bool :=
+  match s_minver_attr sc with
+  | AAbsent => false
+  | ANotCritical | ANotString => true
+  | AStr v => blank v || negb (s_minver_valid sc)
+  end.
+
+(* if verificationPluginName != "" { ... } *)
+Definition lookup_plugin (sc : scenario) (name : string) : discovery :=
+  if minver_error sc then DErr EInconclusive [] else
+  match s_pm sc with
+  | PMNil => DErr EInconclusive []
+  | PMNotInstalled => DErr EInconclusive [name]
+  | PMMetaErr => DErr EOther [name]
+  | PMPlugin ver_valid ver_ge caps =>
+      if negb ver_valid then DErr EInconclusive [name]
+      else if negb ver_ge then DErr EInconclusive [name]
+      else match verification_caps caps with
+           | [] => DErr EInconclusive [name]
+           | vc => DPlugin name vc
+           end
+  end.
+
 Definition discover (sc : scenario) : discovery :=
+  (* verificationPluginName, err := getVerificationPlugin(...); err other than not-exist: return err *)
   match s_plugin_attr sc with
-  | AAbsent => DNoPlugin
   | ANotCritical | ANotString => DErr EOther []
-  | AStr name =>
-      if blank name then DErr EOther [] else
-      (* getVerificationPluginMinVersion *)
-      let minver_err :=
-        match s_minver_attr sc with
-        | AAbsent => false
-        | ANotCritical | ANotString => true
-        | AStr v => blank v || negb (s_minver_valid sc)
-        end in
-      if minver_err then DErr EInconclusive [] else
-      match s_pm sc with
-      | PMNil => DErr EInconclusive []
-      | PMNotInstalled => DErr EInconclusive [name]
-      | PMMetaErr => DErr EOther [name]
-      | PMPlugin ver_valid ver_ge caps =>
-          if negb ver_valid then DErr EInconclusive [name]
-          else if negb ver_ge then DErr EInconclusive [name]
-          else match verification_caps caps with
-               | [] => DErr EInconclusive [name]
-               | vc => DPlugin name vc
-               end
+  | a =>
+      if (match a with AStr name => blank name | _ => false end) then DErr EOther [] else
+      (* a critical extended attribute with a non-string key (fix 8993cd3) *)
+      if s_nonstring_crit sc then DErr EInconclusive [] else
+      match a with
+      | AStr name => lookup_plugin sc name
+      | _ => DNoPlugin
       end
   end.
 
-(* --- processPluginResponse --- *)
-(* results so far, with the authenticity entry possibly rewritten *)
+(* ---------- the native validations (authenticity .. revocation) ----------
+   Returns the error processSignature returns from this part (ENone = it goes
+   on), the results appended so far (after the integrity result) and whether
+   the revocation validator was consulted. [caps] are the verification
+   capabilities of the plugin ([] without plugin). *)
+Definition native (lvl : level) (sc : scenario) (caps : list cap) : err * list result * bool :=
+  let integ := mk_res TIntegrity Enforce false in
+  (* trust store based authenticity *)
+  let auth_failed0 := negb (s_auth sc =? 0)%N in
+  if is_critical_failure (l_auth lvl) auth_failed0
+  then (EResult TAuth, [integ; mk_res TAuth (l_auth lvl) auth_failed0], false) else
+  (* native trusted identity, unless the plugin owns it; an error overwrites authenticityResult.Error *)
+  let native_ti := negb (has_cap CapTI caps) in
+  let auth_failed1 := if native_ti then auth_failed0 || negb (s_identity_ok sc) else auth_failed0 in
+  let rs1 := [integ; mk_res TAuth (l_auth lvl) auth_failed1] in
+  if native_ti && is_critical_failure (l_auth lvl) auth_failed1 then (EResult TAuth, rs1, false) else
+  (* expiry *)
+  let rs2 := rs1 ++ [mk_res TExpiry (l_exp lvl) (s_expired sc)] in
+  if is_critical_failure (l_exp lvl) (s_expired sc) then (EResult TExpiry, rs2, false) else
+  (* authentic timestamp *)
+  let rs3 := rs2 ++ [mk_res TTimestamp (l_ts lvl) (negb (s_ts_ok sc))] in
+  if is_critical_failure (l_ts lvl) (negb (s_ts_ok sc)) then (EResult TTimestamp, rs3, false) else
+  (* revocation: not when skipped by the level, not when the plugin owns it *)
+  let native_rev := negb (action_eqb (l_rev lvl) Skip) && negb (has_cap CapRev caps) in
+  if native_rev then
+    let rs4 := rs3 ++ [mk_res TRev (l_rev lvl) (negb (s_rev_ok sc))] in
+    if is_critical_failure (l_rev lvl) (negb (s_rev_ok sc)) then (EResult TRev, rs4, true)
+    else (ENone, rs4, true)
+  else (ENone, rs3, false).
+
+(* ---------- processPluginResponse ---------- *)
+(* the authenticity entry created earlier gets the plugin's error *)
 Fixpoint set_auth_failed (rs : list result) : list result :=
   match rs with
   | [] => []
@@ -156,6 +207,7 @@ Fixpoint auth_action (rs : list result) : action :=
   | r :: rs' => if vtype_eqb (r_type r) TAuth then r_action r else auth_action rs'
   end.
 
+(* for _, capability := range capabilitiesToVerify *)
 Fixpoint process_caps (lvl : level) (ti rev : option bool) (caps : list cap) (rs : list result)
   : err * list result :=
   match caps with
@@ -180,75 +232,57 @@ Fixpoint process_caps (lvl : level) (ti rev : option bool) (caps : list cap) (rs
   | CapOther :: caps' => process_caps lvl ti rev caps' rs   (* never in capabilitiesToVerify *)
   end.
 
+(* every attribute handed to the plugin must be listed as processed *)
+Definition all_processed (sc : scenario) (processed : list string) : bool :=
+  forallb (fun k => mem_str k processed) (other_keys sc).
+
 Definition process_plugin_response (lvl : level) (sc : scenario) (caps : list cap)
            (processed : list string) (ti rev : option bool) (rs : list result) : err * list result :=
-  if negb (forallb (fun k => mem_str k processed) (s_other_crit sc)) then (EOther, rs)
+  if negb (all_processed sc processed) then (EOther, rs)
   else process_caps lvl ti rev caps rs.
 
-(* --- processSignature --- *)
+(* capabilitiesToVerify: the revocation capability is dropped when the level skips revocation *)
+Definition caps_to_verify (lvl : level) (caps : list cap) : list cap :=
+  filter (fun c => negb (action_eqb (l_rev lvl) Skip && cap_eqb c CapRev)) caps.
+
+(* the signature names no verification plugin: any critical extended
+   attribute (this includes a stray critical min-version header) is unprocessable *)
+Definition any_critical_attribute (sc : scenario) : bool :=
+  match other_crit sc with
+  | _ :: _ => true
+  | [] => match s_minver_attr sc with AAbsent | ANotCritical => false | _ => true end
+  end.
+
+(* ---------- processSignature ---------- *)
 Definition process_signature (lvl : level) (sc : scenario) : obs :=
-  let integ := mk_res TIntegrity Enforce (negb (s_integrity_ok sc)) in
-  if negb (s_integrity_ok sc) then mk_obs (EResult TIntegrity) [integ] false [] None else
+  if negb (s_integrity_ok sc)
+  then mk_obs (EResult TIntegrity) [mk_res TIntegrity Enforce true] false [] None else
+  let integ := mk_res TIntegrity Enforce false in
   match discover sc with
   | DErr e gets => mk_obs e [integ] false gets None
   | d =>
-    let '(name, caps, gets) :=
-      match d with DPlugin n c => (Some n, c, [n]) | _ => (None, [], []) end in
-    (* critical extended attribute with a non-string key *)
-    (* NOTE: in the Go code this check sits before the plugin lookup; it is
-       modelled by [nonstring_first] below so that the call log is exact *)
-    let auth_failed0 := negb (s_auth sc =? 0)%N in
-    let rs1 := [integ; mk_res TAuth (l_auth lvl) auth_failed0] in
-    if is_critical_failure (l_auth lvl) auth_failed0 then mk_obs (EResult TAuth) rs1 false gets None else
-    (* native trusted identity, unless the plugin owns it *)
-    let native_ti := negb (has_cap CapTI caps) in
-    let auth_failed1 := if native_ti then auth_failed0 || negb (s_identity_ok sc) else auth_failed0 in
-    let rs1' := [integ; mk_res TAuth (l_auth lvl) auth_failed1] in
-    if native_ti && is_critical_failure (l_auth lvl) auth_failed1 then mk_obs (EResult TAuth) rs1' false gets None else
-    let rs2 := rs1' ++ [mk_res TExpiry (l_exp lvl) (s_expired sc)] in
-    if is_critical_failure (l_exp lvl) (s_expired sc) then mk_obs (EResult TExpiry) rs2 false gets None else
-    let rs3 := rs2 ++ [mk_res TTimestamp (l_ts lvl) (negb (s_ts_ok sc))] in
-    if is_critical_failure (l_ts lvl) (negb (s_ts_ok sc)) then mk_obs (EResult TTimestamp) rs3 false gets None else
-    let native_rev := negb (action_eqb (l_rev lvl) Skip) && negb (has_cap CapRev caps) in
-    let rs4 := if native_rev then rs3 ++ [mk_res TRev (l_rev lvl) (negb (s_rev_ok sc))] else rs3 in
-    if native_rev && is_critical_failure (l_rev lvl) (negb (s_rev_ok sc)) then mk_obs (EResult TRev) rs4 true gets None else
-    match name with
-    | Some _ =>
-        let to_verify :=
-          filter (fun c => negb (action_eqb (l_rev lvl) Skip && cap_eqb c CapRev)) caps in
+    let '(plugin, caps, gets) :=
+      match d with DPlugin n c => (true, c, [n]) | _ => (false, [], []) end in
+    match native lvl sc caps with
+    | (ENone, rs4, called) =>
+        let to_verify := caps_to_verify lvl caps in
         match to_verify with
-        | [] => mk_obs ENone rs4 native_rev gets None
-        | _ =>
-            let exec := Some (to_verify, s_other_crit sc) in
+        | _ :: _ =>
+            (* if installedPlugin != nil && len(capabilitiesToVerify) > 0 *)
+            let exec := Some (to_verify, other_keys sc) in
             match s_presp sc with
-            | PErr => mk_obs EOther rs4 native_rev gets exec
+            | PErr => mk_obs EOther rs4 called gets exec
             | PResp processed ti rev =>
                 let '(e, rs5) := process_plugin_response lvl sc to_verify processed ti rev rs4 in
-                mk_obs e rs5 native_rev gets exec
+                mk_obs e rs5 called gets exec
             end
-        end
-    | None =>
-        (* no plugin named: nothing can process critical extended attributes *)
-        match s_other_crit sc with
         | [] =>
-            (* a lone critical min-version attribute is also unprocessed *)
-            match s_minver_attr sc with
-            | AAbsent | ANotCritical => mk_obs ENone rs4 native_rev gets None
-            | _ => mk_obs EInconclusive rs4 native_rev gets None
-            end
-        | _ => mk_obs EInconclusive rs4 native_rev gets None
+            if negb plugin && any_critical_attribute sc
+            then mk_obs EInconclusive rs4 called gets None
+            else mk_obs ENone rs4 called gets None
         end
+    | (e, rs, called) => mk_obs e rs called gets None
     end
   end.
 
-(* the non-string-key check happens right after getVerificationPlugin and
-   before the plugin lookup *)
-Definition verify_core (lvl : level) (sc : scenario) : obs :=
-  if s_integrity_ok sc && s_nonstring_crit sc then
-    match s_plugin_attr sc with
-    | ANotCritical | ANotString => process_signature lvl sc
-    | AStr name => if blank name then process_signature lvl sc
-                   else mk_obs EInconclusive [mk_res TIntegrity Enforce false] false [] None
-    | AAbsent => mk_obs EInconclusive [mk_res TIntegrity Enforce false] false [] None
-    end
-  else process_signature lvl sc.
+Definition verify_core := process_signature.
